@@ -55,7 +55,7 @@ func TestC04RoundTrip(t *testing.T) {
 	rec := evid.New(t, "C04", "for every message type (shipped + user structs) and both versions: Read(Write(v)) == canonical(v); v2 Write never ends in 0x00 unless 1 byte long and is never empty for non-empty messages; Read(p) == Read(p ++ 0^k) == Read(strip0(p)); bytes beyond the extended size are ignored; v1 accepts exactly the base size; payloads are carved out of a larger sentinel-filled backing array (cap > len) and the whole array must be unchanged after Read; non-trivial = payload shorter than the extended size with cap > len, or all-zero message, or 255-byte message, or extension-only tail; distinct by (type, payload hash, version)")
 	rec.Require("short-payload-with-capacity", "all-zero-message", "v1-wrong-length", "tail-beyond-ext", "zero-appended", "zero-stripped", "has-extension")
 	tys := types(t)
-	evid.Check(t, rec, len(tys)*evid.N(60, 300), func(t *rapid.T) {
+	evid.Check(t, rec, len(tys)*evid.N(150, 500), func(t *rapid.T) {
 		ti := tys[rapid.IntRange(0, len(tys)-1).Draw(t, "type")]
 		v2 := rapid.Bool().Draw(t, "v2")
 		val := gen.Value(t, ti.lay)
@@ -205,7 +205,7 @@ func TestC04ArbitraryPayloads(t *testing.T) {
 	rec := evid.New(t, "C04", "arbitrary payloads of 0..255 bytes (all-zero, all-FF, random, boundary lengths around base/extended size) for every type and both versions, carved from a sentinel backing array: Read returns a value equal to the reference decoding or an error exactly when the reference refuses (v1 wrong length); no panic; buffer untouched; deterministic; non-trivial = length differs from the full size; distinct by (type, payload hash, version)")
 	rec.Require("len0", "len255", "shorter-than-base", "between-base-and-ext", "longer-than-ext")
 	tys := types(t)
-	evid.Check(t, rec, len(tys)*evid.N(40, 200), func(t *rapid.T) {
+	evid.Check(t, rec, len(tys)*evid.N(120, 400), func(t *rapid.T) {
 		ti := tys[rapid.IntRange(0, len(tys)-1).Draw(t, "type")]
 		v2 := rapid.Bool().Draw(t, "v2")
 		base, ext := ti.lay.BaseSize, ti.lay.ExtSize
